@@ -300,3 +300,337 @@ func naturalLoop(hdr *ssa.BasicBlock) map[*ssa.BasicBlock]bool {
 	}
 	return body
 }
+
+// ruleDoneKeyIsStoredKey: the node forgets an association by the string the association reports on its way
+// out; it remembered it under net.Addr.String() of the peer. The report is RemoteAddr().String() — anything
+// assembled by hand ("ip:port") differs for IPv6 ("[::1]:8805"), the entry stays, and every later datagram of
+// that peer is dropped as "for an existing connection".
+func ruleDoneKeyIsStoredKey(w *World, r *Report, prop, rule string) {
+	f := w.Fn(prop, "pfcpiface.(*PFCPConn).shutdownConn")
+	n := 0
+	for _, g := range withClosures(f) {
+		allInstrs(g, func(i ssa.Instruction) {
+			snd, ok := i.(*ssa.Send)
+			if !ok || !strings.HasSuffix(symOf(snd.Chan).String(), "PFCPConn.done") {
+				return
+			}
+			n++
+			good := false
+			if c, ok := snd.X.(*ssa.Call); ok && c.Call.IsInvoke() && c.Call.Method.Name() == "String" {
+				if rc, ok := c.Call.Value.(*ssa.Call); ok && ((rc.Call.IsInvoke() && rc.Call.Method.Name() == "RemoteAddr") || (staticCallee(rc) != nil && staticCallee(rc).Name() == "RemoteAddr")) {
+					good = true
+				}
+			}
+			r.check(good, rule, w.FuncName(g), "the exit report names the association by RemoteAddr().String()", w.Pos(snd.Pos()), "the key it was stored under", "the association reports its exit as "+symOf(snd.X).String()+", not as RemoteAddr().String(), the form it is remembered under: for an IPv6 peer the two differ, the node never forgets the association and drops every later datagram of the peer — its next Association Setup Request is never answered")
+		})
+	}
+	r.floor(rule+" exit reports", n, 1)
+}
+
+// ruleOnlyReadDeadline: the idle time-out of an association is a read deadline. A deadline that covers writes
+// as well (SetDeadline, SetWriteDeadline) makes a response written later than read_timeout after the reader
+// last armed it fail: the request was processed and its response is dropped.
+func ruleOnlyReadDeadline(w *World, r *Report, prop, rule string) {
+	nRead := 0
+	for f := range w.allFuncs() {
+		if f.Pkg == nil || f.Pkg.Pkg.Path() != pfcpPkg || strings.HasPrefix(w.FuncName(f), "test/") {
+			continue
+		}
+		f := f
+		allInstrs(f, func(i ssa.Instruction) {
+			c, ok := i.(ssa.CallInstruction)
+			if !ok {
+				return
+			}
+			name := ""
+			var recv ssa.Value
+			if c.Common().IsInvoke() {
+				name, recv = c.Common().Method.Name(), c.Common().Value
+			} else if callee := c.Common().StaticCallee(); callee != nil && callee.Signature.Recv() != nil && len(c.Common().Args) > 0 {
+				name, recv = callee.Name(), c.Common().Args[0]
+			}
+			if recv == nil || !(rootTypeName(recv.Type()) == "PFCPConn" || typeName(recv.Type()) == "net.Conn" || strings.HasSuffix(typeName(recv.Type()), "net.UDPConn")) {
+				return
+			}
+			switch name {
+			case "SetReadDeadline":
+				nRead++
+			case "SetDeadline", "SetWriteDeadline":
+				r.bad(rule, w.FuncName(f), "the PFCP socket only ever gets a read deadline", w.Pos(i.Pos()), name+" also bounds writes: a response transmitted more than the time-out after the reader last renewed the deadline fails with i/o timeout and is dropped, although the request was processed")
+			}
+		})
+	}
+	r.check(nRead >= 1, rule, "pfcpiface", "the reader arms a read deadline", "-", fmt.Sprintf("%d SetReadDeadline calls", nRead), "no SetReadDeadline on the PFCP socket any more: an association that went silent is never noticed (or the deadline is set by a call that also bounds writes)")
+}
+
+// ruleHTTPShutdownBounded: Stop() reaches the PFCP node: the wait for the REST server is bounded (a context
+// with a time-out), a client stalled in a request cannot hold it.
+func ruleHTTPShutdownBounded(w *World, r *Report, prop, rule string) {
+	f := w.Fn(prop, "pfcpiface.(*PFCPIface).Stop")
+	n := 0
+	allInstrs(f, func(i ssa.Instruction) {
+		c, ok := i.(*ssa.Call)
+		if !ok || staticCallee(c) == nil || staticCallee(c).Name() != "Shutdown" || !strings.Contains(calleeName(c), "net/http.Server") {
+			return
+		}
+		n++
+		ctx := c.Call.Args[len(c.Call.Args)-1]
+		good := false
+		if ex, ok := ctx.(*ssa.Extract); ok && ex.Index == 0 {
+			if cc, ok := ex.Tuple.(*ssa.Call); ok && (calleeName(cc) == "context.WithTimeout" || calleeName(cc) == "context.WithDeadline") {
+				good = true
+			}
+		}
+		r.check(good, rule, w.FuncName(f), "the wait for the REST server is bounded", w.Pos(c.Pos()), "context.WithTimeout", "http.Server.Shutdown is given "+symOf(ctx).String()+": it waits for every open request for ever; one stalled client keeps Stop() from reaching the PFCP node — no session is removed, the datapath is never released, the agent does not stop")
+	})
+	r.floor(rule+" http shutdown calls in Stop", n, 1)
+}
+
+// ruleNewConnOnlyForUnknownPeer: the listener creates an association only for a peer it has none for: a
+// second PFCPConn for the same address replaces the map entry of the first, whose exit report then deletes
+// the entry of the second (the map is keyed by address, not by connection).
+func ruleNewConnOnlyForUnknownPeer(w *World, r *Report, prop, rule string) {
+	f := w.Fn(prop, "pfcpiface.(*PFCPNode).handleNewPeers")
+	newConn := w.Fn(prop, "pfcpiface.(*PFCPNode).NewPFCPConn")
+	n := 0
+	for _, c := range callsTo(f, newConn) {
+		n++
+		g := onlyVia(f, c.(ssa.Instruction), func(a, b *ssa.BasicBlock) bool {
+			v, truth, ok := boolEdge(a, b)
+			if !ok || truth {
+				return false
+			}
+			ex, isEx := v.(*ssa.Extract)
+			if !isEx || ex.Index != 1 {
+				return false
+			}
+			lc, isCall := ex.Tuple.(*ssa.Call)
+			return isCall && strings.HasSuffix(calleeName(lc), "sync.Map).Load") && strings.HasSuffix(symOf(lc.Call.Args[0]).String(), "pConns")
+		})
+		r.check(g, rule, w.FuncName(f), "a new association only for a peer without one", w.Pos(c.Pos()), "behind pConns.Load(addr) not found", "NewPFCPConn can run for an address that still has an entry in pConns: the new connection replaces the entry, and when the old one reports its exit the node deletes the entry by address — the live association is forgotten (Stop does not wait for it, its sessions outlive the agent)")
+	}
+	r.floor(rule+" association constructor calls in the listener", n, 1)
+}
+
+// ruleSocketAddresses: the two BESS helper sockets are dialled at the addresses configured for them.
+func ruleSocketAddresses(w *World, r *Report, prop, rule string) {
+	f := w.Fn(prop, "pfcpiface.(*bess).SetUpfInfo")
+	want := map[string][2]string{
+		"endMarkerSocket":  {"Conf.EndMarkerSockAddr", "PfcpAddr"},
+		"notifyBessSocket": {"Conf.NotifySockAddr", "SockAddr"},
+	}
+	consts := map[string]string{}
+	for _, nm := range []string{"PfcpAddr", "SockAddr"} {
+		if s, ok := constStringOf(w, nm); ok {
+			consts[nm] = s
+		}
+	}
+	n := 0
+	allInstrs(f, func(i ssa.Instruction) {
+		st, ok := i.(*ssa.Store)
+		if !ok {
+			return
+		}
+		fa, ok := st.Addr.(*ssa.FieldAddr)
+		if !ok || fieldVar(fa) == nil {
+			return
+		}
+		spec, ok := want[fieldVar(fa).Name()]
+		if !ok {
+			return
+		}
+		ex, ok := st.Val.(*ssa.Extract)
+		if !ok {
+			return
+		}
+		dc, ok := ex.Tuple.(*ssa.Call)
+		if !ok || calleeName(dc) != "net.Dial" {
+			return
+		}
+		n++
+		s := symOf(dc.Call.Args[1])
+		good := true
+		sawField := false
+		for _, l := range s.Leaves() {
+			switch {
+			case l == "F:"+spec[0]:
+				sawField = true
+			case strings.HasPrefix(l, "C:") && strings.Contains(l, consts[spec[1]]) && consts[spec[1]] != "":
+			case l == `C:""`:
+			default:
+				good = false
+			}
+		}
+		r.check(good && sawField, rule, w.FuncName(f), fieldVar(fa).Name()+" is dialled at its configured address", w.Pos(dc.Pos()), spec[0]+" or "+spec[1], fieldVar(fa).Name()+" is dialled at "+s.String()+" instead of "+spec[0]+" (default "+spec[1]+"): with the sockets named in the configuration the end markers go to a socket BESS does not read them from (or the dial fails and the sender loop never starts) — no End Marker reaches the datapath")
+	})
+	r.floor(rule+" helper sockets dialled", n, 2)
+}
+
+// ruleResetBothCells: giving a meter back resets every cell it owns: the downlink cell is left out only when it
+// is the uplink cell (a unidirectional meter), whatever the meter's kind.
+func ruleResetBothCells(w *World, r *Report, prop, rule string) {
+	f := w.Fn(prop, "pfcpiface.(*UP4).resetMeter")
+	fieldRead := func(v ssa.Value, name string) bool {
+		for {
+			cv, ok := v.(*ssa.Convert)
+			if !ok {
+				break
+			}
+			v = cv.X
+		}
+		switch x := v.(type) {
+		case *ssa.UnOp:
+			fa, ok := x.X.(*ssa.FieldAddr)
+			return ok && fieldVar(fa) != nil && fieldVar(fa).Name() == name
+		case *ssa.Field:
+			return fieldVar(x) != nil && fieldVar(x).Name() == name
+		}
+		return false
+	}
+	// the entry whose index is the downlink cell
+	isDown := func(i ssa.Instruction) bool {
+		st, ok := i.(*ssa.Store)
+		if !ok {
+			return false
+		}
+		fa, ok := st.Addr.(*ssa.FieldAddr)
+		return ok && fieldVar(fa) != nil && fieldVar(fa).Name() == "Index" && rootTypeName(fa.X.Type()) == "Index" && fieldRead(st.Val, "downlinkCellID")
+	}
+	n := 0
+	allInstrs(f, func(i ssa.Instruction) {
+		if isDown(i) {
+			n++
+		}
+	})
+	r.floor(rule+" downlink entries in resetMeter", n, 1)
+	same := func(a, b *ssa.BasicBlock) bool {
+		x, op, y, ok := edgeFact(a, b)
+		if !ok || op != token.EQL {
+			return false
+		}
+		return (fieldRead(x, "downlinkCellID") && fieldRead(y, "uplinkCellID")) || (fieldRead(x, "uplinkCellID") && fieldRead(y, "downlinkCellID"))
+	}
+	hit := reach(f, nil, isReturn, isDown, same)
+	pos := w.Pos(f.Pos())
+	if hit != nil {
+		pos = w.Pos(hit.Pos())
+	}
+	r.check(hit == nil, rule, w.FuncName(f), "the downlink cell is reset unless it is the uplink cell", pos, "left out only on downlinkCellID == uplinkCellID", "resetMeter can finish without resetting the downlink cell although it differs from the uplink cell (the decision looks at something other than the two cell numbers): a bidirectional application meter keeps its downlink rate after the session is gone, and the next session that is handed the cell inherits it")
+}
+
+// ruleOneBatch: the table entries of one call are written in one request: the caller reads the per-entry
+// status list of that one batch (ALREADY_EXISTS on a shared entry is tolerated, the rest of the batch is
+// applied); entry-by-entry writes that stop at the first error drop the remaining entries of the PDR.
+func ruleOneBatch(w *World, r *Report, prop, rule string) {
+	f := w.Fn(prop, "pfcpiface.(*P4rtClient).ApplyTableEntries")
+	var writes []ssa.CallInstruction
+	for _, c := range callsIn(f, func(c ssa.CallInstruction) bool {
+		g := staticCallee(c)
+		return g != nil && (g.Name() == "WriteBatchReq" || g.Name() == "WriteReq")
+	}) {
+		writes = append(writes, c)
+	}
+	r.check(len(writes) == 1, rule, w.FuncName(f), "one write request per call", w.Pos(f.Pos()), "1", fmt.Sprintf("%d write calls in ApplyTableEntries", len(writes)))
+	for _, c := range writes {
+		ins := c.(ssa.Instruction)
+		again := reach(f, ins, func(j ssa.Instruction) bool { return j == ins }, nil, nil)
+		r.check(again == nil && staticCallee(c).Name() == "WriteBatchReq", rule, w.FuncName(f), "the entries go out as one batch", w.Pos(c.Pos()), "WriteBatchReq outside the loop", "the entries are written one request at a time and the first error ends the call: after ALREADY_EXISTS on the sessions entry two PDRs of a direction share (which the caller tolerates) the terminations and applications entries of the later PDR are never written — the session is accepted without them")
+	}
+}
+
+// ruleAppQerIsFirst: the application QER of a PDR is the first of its QER list (the second, if any, is the
+// session QER): the QER UP4 takes gate, QFI and traffic class from is found by comparing with element 0.
+func ruleAppQerIsFirst(w *World, r *Report, prop, rule string) {
+	f := w.Fn(prop, "pfcpiface.findRelatedApplicationQER")
+	n := 0
+	for _, ret := range returnsOf(f) {
+		if !successReturns(f)(ret) {
+			continue
+		}
+		n++
+		g := onlyVia(f, ret, func(a, b *ssa.BasicBlock) bool {
+			x, op, y, ok := edgeFact(a, b)
+			if !ok || op != token.EQL {
+				return false
+			}
+			first := func(v ssa.Value) bool {
+				ld, ok := v.(*ssa.UnOp)
+				if !ok {
+					return false
+				}
+				ia, ok := ld.X.(*ssa.IndexAddr)
+				if !ok {
+					return false
+				}
+				k, isK := constInt(ia.Index)
+				return isK && k == 0 && strings.HasSuffix(symOf(ia.X).String(), "qerIDList")
+			}
+			return first(x) || first(y)
+		})
+		r.check(g, rule, w.FuncName(f), "the application QER is the one the PDR lists first", w.Pos(ret.Pos()), "under qerIDList[0] == qer.qerID", "a QER is returned as the PDR's application QER without being the first of its list: when the session QER precedes it in the message UP4 takes gate status, QFI and traffic class from the session QER — a closed application gate forwards")
+	}
+	r.floor(rule+" successful returns of findRelatedApplicationQER", n, 1)
+}
+
+// ruleOneDDNListener: one digest listener, hence one rate limiter, for the life of the agent: the listener is
+// started inside initOnce.Do and nowhere else (a listener per reconnect starts with an empty limiter — and
+// the old ones keep running).
+func ruleOneDDNListener(w *World, r *Report, prop, rule string) {
+	n := 0
+	for f := range w.allFuncs() {
+		f := f
+		allInstrs(f, func(i ssa.Instruction) {
+			g, ok := i.(*ssa.Go)
+			if !ok || staticCallee(g) == nil || staticCallee(g).Name() != "listenToDDNs" {
+				return
+			}
+			n++
+			once := false
+			if p := f.Parent(); p != nil {
+				allInstrs(p, func(j ssa.Instruction) {
+					c, ok := j.(ssa.CallInstruction)
+					if !ok || !strings.HasSuffix(calleeName(c), "sync.Once).Do") {
+						return
+					}
+					for _, a := range c.Common().Args {
+						if closureOf(a) == f {
+							once = true
+						}
+					}
+				})
+			}
+			r.check(once, rule, w.FuncName(f), "the digest listener is started once", w.Pos(g.Pos()), "inside initOnce.Do", "go listenToDDNs outside sync.Once: every (re)initialisation of the P4Runtime connection starts another listener with a rate limiter of its own — a second report for a session within the interval is forwarded after a reconnect")
+		})
+	}
+	r.floor(rule+" starts of the digest listener", n, 1)
+}
+
+// ruleReportConnLookedUp: a datapath report is handed to an association that is in pConns at that moment: the
+// receiver of handleDigestReport is the value the Range over pConns yields, not something remembered from an
+// earlier report (an association that ended and was set up again is a different PFCPConn).
+func ruleReportConnLookedUp(w *World, r *Report, prop, rule string) {
+	h := w.Fn(prop, "pfcpiface.(*PFCPConn).handleDigestReport")
+	n := 0
+	for f := range w.allFuncs() {
+		f := f
+		for _, c := range callsTo(f, h) {
+			n++
+			recv := c.Common().Args[0]
+			good := false
+			if ta, ok := recv.(*ssa.TypeAssert); ok {
+				if p, ok := ta.X.(*ssa.Parameter); ok && p.Parent() == f && f.Parent() != nil {
+					good = true
+				}
+			}
+			if ex, ok := recv.(*ssa.Extract); ok {
+				if ta, ok := ex.Tuple.(*ssa.TypeAssert); ok {
+					if p, ok := ta.X.(*ssa.Parameter); ok && p.Parent() == f && f.Parent() != nil {
+						good = true
+					}
+				}
+			}
+			r.check(good, rule, w.FuncName(f), "the report goes to an association found in pConns now", w.Pos(c.Pos()), "receiver = value of the Range callback", "handleDigestReport is called on "+symOf(recv).String()+", a connection remembered from earlier: after the association ended and was set up again the reports go to the dead connection, whose store does not know the new sessions — no Session Report Request is sent")
+		}
+	}
+	r.floor(rule+" report dispatch sites", n, 1)
+}
